@@ -494,6 +494,11 @@ func cycle(t *lib.Trace, r *rand.Rand, cyc int) {
 			case "t4":
 				action(fmt.Sprintf("insert { r: 'rz', n: %d, code: %d, v: 'afterdump' } into t4", r.Intn(1000), 500+r.Intn(1000)))
 			}
+			// let the merger finish the commits on this table first: LoadDbTable replaces the
+			// table's info, and a merge still queued for it then dies in the merger goroutine
+			// ("FATAL: in merger: slice bounds out of range", findings/C20.md) - a schedule
+			// dependent defect of its own that would make this suite nondeterministic
+			db.Persist()
 			var n int
 			var lerr error
 			e := try(func() { n, lerr = tools.LoadDbTable(name, name+".su", "", "", db) })
